@@ -993,3 +993,21 @@ package core
 //@ func (*IndexedState).rem
 //@   assume-entry cascadeId == "?none"
 //@   ensures[C08.ix_rem_always_runs_the_cascade] result1 == nil && (result0 || !old(has(s.IdToFact, id))) ==> cascadeId == id
+
+// C02/C08: which strings become index terms does not depend on the container they sit in: a term is added only if it is not a
+// variable and is shorter than StringLengthTermLimit (facts and search patterns are decomposed by this same function, so a
+// container-specific shortcut makes stored facts unfindable), and nothing is ever removed from the set.
+//@ define termOK(t) = !prefix("?", t) && len(t) < SystemParameters.StringLengthTermLimit
+//@ define termsOnlyGrow(terms) = forall(t, string, old(has(terms, t)) ==> has(terms, t))
+//@ define termsAddedAreOK(terms) = forall(t, string, has(terms, t) && !old(has(terms, t)) ==> termOK(t))
+//@ func extractTermsAux
+//@   requires[C02+C08.terms_set_allocated] terms != nil
+//@   ensures[C02+C08.terms_only_grow]            termsOnlyGrow(terms)
+//@   ensures[C02+C08.terms_added_are_admissible] termsAddedAreOK(terms)
+//@   ensures[C02+C08.admissible_string_is_a_term] is(x, string) && old(termOK(x.(string))) ==> has(terms, x.(string))
+//@   loop 1: invariant[C02+C08.terms_loop_map]     termsOnlyGrow(terms) && termsAddedAreOK(terms)
+//@   loop 2: invariant[C02+C08.terms_loop_array]   termsOnlyGrow(terms) && termsAddedAreOK(terms)
+//@   loop 3: invariant[C02+C08.terms_loop_strings] termsOnlyGrow(terms) && termsAddedAreOK(terms)
+//@ func IsVariable
+//@   ensures[C02+C08.isvariable_is_question_mark_prefix] result == prefix("?", s)
+//@   pure-effects
